@@ -396,13 +396,17 @@ impl std::fmt::Display for NodeConstErr {
 impl Error for NodeConstErr {}
 
 fn compute_shl_uint(a: U256, b: U256) -> U256 {
-    debug_assert!(b.lt(&U256::from(256)));
+    if b >= U256::from(256) {
+        return U256::ZERO;
+    }
     let ls_limb = b.as_limbs()[0];
     a.shl(ls_limb as usize)
 }
 
 fn compute_shr_uint(a: U256, b: U256) -> U256 {
-    debug_assert!(b.lt(&U256::from(256)));
+    if b >= U256::from(256) {
+        return U256::ZERO;
+    }
     let ls_limb = b.as_limbs()[0];
     a.shr(ls_limb as usize)
 }
